@@ -57,9 +57,69 @@ Declares(svc, ty, fld) == Has(svc.decl, ty) /\ \E i \in DOMAIN svc.decl[ty] : sv
 SvcByUrl(u) == LET i == CHOOSE j \in DOMAIN W.services : W.services[j].url = u IN W.services[i]
 KnownSvc(u) == \E j \in DOMAIN W.services : W.services[j].url = u
 
+(* ---------------------------------------------------------------- C02: the translation *)
+(* A field node = [path (response keys from the operation root), pt (parent type), f (field   *)
+(* name), key (response key)].  Fragments only change the parent type.                        *)
+Range(seq) == {seq[i] : i \in DOMAIN seq}
+FieldTypeName(pt, f) == IF Has(W.types, pt) /\ Has(W.types[pt].fields, f) THEN W.types[pt].fields[f].type.ty ELSE ""
+
+RECURSIVE Nodes(_, _, _)
+Nodes(sels, path, pt) ==
+   UNION { IF s.k = "F"
+           THEN {[path |-> path, pt |-> pt, f |-> s.name, key |-> s.key]}
+                   \cup (IF s.sub # <<>> THEN Nodes(s.sub, Append(path, s.key), FieldTypeName(pt, s.name)) ELSE {})
+           ELSE Nodes(s.sub, path, IF s.on = "" THEN pt ELSE s.on)
+         : s \in Range(sels) }
+
+IsRootType(t) == t \in {"Query", "Mutation", "Subscription"}
+(* the nodes a plan step asks its service for, placed in the client's coordinate system *)
+StepNodes(st) ==
+   IF IsRootType(st.parentType) THEN Nodes(st.facts.sel, <<>>, st.parentType)
+   ELSE \* node(id: $id) { ... on T { fields } } inserted at st.ip
+        UNION { IF s.k = "F" /\ s.name = "node" THEN Nodes(s.sub, st.ip, st.parentType) ELSE {[path |-> st.ip, pt |-> "?", f |-> "?", key |-> "?"]}
+              : s \in Range(st.facts.sel) }
+
+DeclaresField(svc, pt, f) ==
+   \/ f = "__typename"
+   \/ f = "id" /\ Has(svc.decl, pt) /\ Has(W.types, pt) /\ W.types[pt].node
+   \/ Declares(svc, pt, f)
+
+Scrubbed(scrub, path, pt, f) ==
+   LET k == JoinStr(path, ".") IN
+   Has(scrub, k) /\ Has(scrub[k], pt) /\ \E i \in DOMAIN scrub[k][pt] : scrub[k][pt][i] = f
+
+VarOK(r, v) ==
+   IF v = "id" /\ ~Has(op.varDefs, "id") THEN TRUE
+   ELSE IF Has(op.vars, v) THEN Has(r.passed, v) /\ r.passed[v] = RenderArgVal(op.vars[v])
+   ELSE IF Has(op.varDefs, v) /\ Has(op.varDefs[v], "def")
+        THEN LET d == RenderArgVal(op.varDefs[v].def) IN (Has(r.defaults, v) /\ r.defaults[v] = d) \/ (Has(r.passed, v) /\ r.passed[v] = d)
+   ELSE ~Has(r.passed, v) \/ r.passed[v] = "~"
+
+PlanOK(p) ==
+   LET steps  == {p.steps[i] : i \in {j \in DOMAIN p.steps : ~p.steps[j].internal}}
+       client == {n \in Nodes(op.sel, <<>>, RootName(op.kind)) : n.f # "__typename" \/ n.path # <<>>}
+       sent   == UNION {{[n |-> n, url |-> st.url] : n \in StepNodes(st)} : st \in steps}
+   IN /\ p.err = ""
+      \* (a) each sub-request text is valid GraphQL for the schema of the service it goes to
+      /\ \A st \in steps : /\ KnownSvc(st.url) /\ st.facts.parses /\ st.facts.validates
+                           /\ \A i \in DOMAIN st.facts.used : Has(st.facts.declared, st.facts.used[i])
+                           \* (e) root steps carry the client's operation kind and name, child steps are node queries
+                           /\ IF IsRootType(st.parentType)
+                              THEN st.facts.kw = op.kind /\ st.facts.opName = op.name
+                              ELSE st.facts.kw = "query" /\ Has(W.types, st.parentType) /\ W.types[st.parentType].node
+      \* (b) coverage: every client-selected field is asked from a service that declares it
+      /\ \A n \in client : \E x \in sent : x.n = n /\ DeclaresField(SvcByUrl(x.url), n.pt, n.f)
+      \* (c) what is added are only id/__typename helpers, each registered for removal
+      /\ \A x \in sent : x.n \in client \/ ( /\ x.n.f \in {"id", "__typename"} /\ x.n.key = x.n.f
+                                              /\ Scrubbed(p.scrub, x.n.path, x.n.pt, x.n.f) )
+      \* ... and nothing the client asked for is registered for removal
+      /\ \A n \in client : (n.f \in {"id", "__typename"} /\ n.key = n.f) => ~Scrubbed(p.scrub, n.path, n.pt, n.f)
+
 ReqOK(svc, r) ==
    /\ E("C02") => /\ r.parses /\ r.validates            \* valid GraphQL for THAT service's own schema
                   /\ r.undeclared = <<>>                \* every variable used is declared
+                  /\ r.inPlan                           \* only instances of plan steps are sent
+                  /\ \A i \in DOMAIN r.used : VarOK(r, r.used[i])   \* accompanied by the client's value or default
    /\ E("C06") => \* only root steps of a mutation are mutations, sent to the owner; nothing else is
                   /\ r.kw = "mutation" => /\ op.kind = "mutation"
                                           /\ KnownSvc(svc)
